@@ -437,8 +437,52 @@ def run_for(prop: str, rep: common.Report, tier: str, seed: int):
     return cases
 
 
+def nonfinite_cases(rep, rng, quick):
+    """'every number finite': NaN / infinity handed to the compiler's public operations in any numeric form (python float,
+    numpy float64 / float32 scalars, float32 matrices) must be refused - nothing non-finite may be printed"""
+    import re
+    n = 0
+    forms = [float, np.float64, np.float32]
+    for form in forms:
+        for bad in (float('nan'), float('inf'), float('-inf')):
+            v = form(bad)
+            jobs = {
+                'move_to-coordinate': lambda G: G.move_to([1.0, v, 0.0]),
+                'move_to-speed': lambda G: G.move_to([1.0, 0.0, 0.0], speed_pos=v),
+                'set_home': lambda G: G.set_home([0.0, 0.0, v]),
+                'write-feed': lambda G: G.write(np.array([[0, 1, 1], [0, 0, 0], [0, 0, 0], [5, v, 5], [0, 1, 0]], dtype=type(v) if form is not float else np.float64)),
+                'write-coordinate': lambda G: G.write(np.array([[0, 1, 1], [0, v, 0], [0, 0, 0], [5, 5, 5], [0, 1, 0]], dtype=type(v) if form is not float else np.float64)),
+            }
+            for name, job in jobs.items():
+                cfgd = pgm.gen_cfg(rng, allow_bad_laser=False)
+                fn = 'c03nf.pgm'
+                if os.path.exists(fn):
+                    os.remove(fn)
+                raised = None
+                with pgm.quiet(), np.errstate(all='ignore'):
+                    try:
+                        with pgm.make_compiler(cfgd, fn) as G:
+                            job(G)
+                    except ValueError:
+                        raised = 'ValueError'
+                    except Exception as e:
+                        raised = type(e).__name__
+                text = pgm.read_file(fn) or ''
+                n += 1
+                bad_lines = [ln for ln in text.splitlines() if re.search(r'(?<![A-Za-z])(nan|inf)', ln.split(';')[0], flags=re.I)
+                             and not ln.upper().startswith(('MSG', 'DVAR'))]
+                if bad_lines:
+                    rep.violation(f'C03/non-finite-number-printed/{name}', f'{name} with {form.__name__}({bad}) printed {bad_lines[0]!r}',
+                                  {'input': {'operation': name, 'value': repr(bad), 'form': form.__name__, 'cfg': cfgd}, 'raised': raised,
+                                   'lines': bad_lines[:3]})
+    return n
+
+
 def run(rep, tier, seed):
     run_for('C03', rep, tier, seed)
+    n = nonfinite_cases(rep, common.rng_for(seed, 'C03', 'nonfinite'), tier == 'quick')
+    rep.coverage['evaluations'] += n
+    rep.coverage['nonfinite_cases'] = n
 
 
 def replay(data, prop='C03'):
